@@ -16,9 +16,9 @@ def run_text(ctx, pid, engine, rule, extra_cases=None):
     c = consts(ctx, pid)
     # design obligation on the specified printers (L1): injective on the value space, i.e. a parser with
     # Parse(Print(v)) = v exists for the canonical forms
-    ctx.model_check("printers_injective", "MCTextForms", c, ["PrintersInjective"], spec="ISpec", workers=1)
+    ctx.model_check("printers_injective", "MCTextInj", c, ["PrintersInjective"], spec="ISpec", workers=1)
     cases, verdicts = fn_pipeline(
-        ctx, pid, engine, "GenTextForms", "TraceTextForms", consts=c, trace_consts=c, crate=CRATE,
+        ctx, pid, engine, "GenTextForms", "TraceTextForms", consts=c, trace_consts={"Which": pid}, crate=CRATE,
         expected=lambda k: None if is_parse(k) else k.get("exp"),
         observed=lambda o: {"text": o["r"].get("text")},
         extra_cases=extra_cases, rule=rule, timeout=1500)
